@@ -49,13 +49,13 @@ func createASTTypeExpr(pkg string, t types.Type, varPool *VarPool, imports map[s
 				}
 			}
 
-			return &ast.SelectorExpr{
+			return instantiateTypeExpr(pkg, &ast.SelectorExpr{
 				X:   ast.NewIdent(pkgName),
 				Sel: ast.NewIdent(name),
-			}, nil
+			}, typ.TypeArgs(), varPool, imports)
 		}
 
-		return ast.NewIdent(name), nil
+		return instantiateTypeExpr(pkg, ast.NewIdent(name), typ.TypeArgs(), varPool, imports)
 	case *types.Alias:
 		name := typ.Obj().Name()
 		if objPkg := typ.Obj().Pkg(); objPkg != nil && objPkg.Path() != pkg {
@@ -76,13 +76,13 @@ func createASTTypeExpr(pkg string, t types.Type, varPool *VarPool, imports map[s
 				}
 			}
 
-			return &ast.SelectorExpr{
+			return instantiateTypeExpr(pkg, &ast.SelectorExpr{
 				X:   ast.NewIdent(pkgName),
 				Sel: ast.NewIdent(name),
-			}, nil
+			}, typ.TypeArgs(), varPool, imports)
 		}
 
-		return ast.NewIdent(name), nil
+		return instantiateTypeExpr(pkg, ast.NewIdent(name), typ.TypeArgs(), varPool, imports)
 	case *types.Slice:
 		expr, err := createASTTypeExpr(pkg, typ.Elem(), varPool, imports)
 		if err != nil {
@@ -159,9 +159,22 @@ func createASTTypeExpr(pkg string, t types.Type, varPool *VarPool, imports map[s
 	case *types.Signature:
 		funcFields := make([]*ast.Field, 0, typ.Params().Len())
 		for i := 0; i < typ.Params().Len(); i++ {
-			expr, err := createASTTypeExpr(pkg, typ.Params().At(i).Type(), varPool, imports)
+			paramType := typ.Params().At(i).Type()
+			isVariadicParam := typ.Variadic() && i == typ.Params().Len()-1
+			if isVariadicParam {
+				// The last parameter of a variadic function has type []T and is spelled ...T
+				if slice, ok := paramType.(*types.Slice); ok {
+					paramType = slice.Elem()
+				} else {
+					isVariadicParam = false
+				}
+			}
+			expr, err := createASTTypeExpr(pkg, paramType, varPool, imports)
 			if err != nil {
 				return nil, fmt.Errorf("param %d: %w", i, err)
+			}
+			if isVariadicParam {
+				expr = &ast.Ellipsis{Elt: expr}
 			}
 			funcFields = append(funcFields, &ast.Field{
 				Names: []*ast.Ident{ast.NewIdent(fmt.Sprintf("arg%d", i))},
@@ -207,6 +220,28 @@ func createASTTypeExpr(pkg string, t types.Type, varPool *VarPool, imports map[s
 	default:
 		return nil, fmt.Errorf("unsupported type: %s", t.String())
 	}
+}
+
+// instantiateTypeExpr appends the type arguments of a generic instance (Box[int], Pair[K, V]) to its base expression.
+func instantiateTypeExpr(pkg string, base ast.Expr, typeArgs *types.TypeList, varPool *VarPool, imports map[string]*Import) (ast.Expr, error) {
+	if typeArgs == nil || typeArgs.Len() == 0 {
+		return base, nil
+	}
+
+	args := make([]ast.Expr, 0, typeArgs.Len())
+	for i := range typeArgs.Len() {
+		expr, err := createASTTypeExpr(pkg, typeArgs.At(i), varPool, imports)
+		if err != nil {
+			return nil, fmt.Errorf("type argument %d: %w", i, err)
+		}
+		args = append(args, expr)
+	}
+
+	if len(args) == 1 {
+		return &ast.IndexExpr{X: base, Index: args[0]}, nil
+	}
+
+	return &ast.IndexListExpr{X: base, Indices: args}, nil
 }
 
 func CreateInjector(metaData *MetaData, build *BuildDirective, varPool *VarPool) (*Injector, error) {
